@@ -27,6 +27,7 @@ type ForeignParams struct {
 	Pad    string `json:"pad,omitempty"`    // EC scalar: fixed | stripped | extra
 	Sig    string `json:"sig,omitempty"`    // signature algorithm name; default SHA-256 of the signer's family
 	AltDN  bool   `json:"altDN,omitempty"`  // the certificate's subject text differs from the config's subject
+	Odd    string `json:"odd,omitempty"`    // structurally valid but unusual certificate/request (see oddKinds)
 }
 
 func (f ForeignParams) JSON() string { b, _ := json.Marshal(f); return string(b) }
@@ -347,7 +348,12 @@ func buildForeignArtifact(w *World, e *EntitySpec, arg string) ([]byte, error) {
 			}
 		}
 		now := time.Now()
-		der, err := buildCert(subj, issuerDN, k.spki(), signer, fam, p.Sig, now.AddDate(-1, 0, 0), now.AddDate(60, 0, 0), 4711, nil)
+		var der []byte
+		if p.Odd != "" {
+			der, err = buildOddCert(p.Odd, subj, k, signer, fam, now)
+		} else {
+			der, err = buildCert(subj, issuerDN, k.spki(), signer, fam, p.Sig, now.AddDate(-1, 0, 0), now.AddDate(60, 0, 0), 4711, nil)
+		}
 		if err != nil {
 			return nil, err
 		}
@@ -357,11 +363,89 @@ func buildForeignArtifact(w *World, e *EntitySpec, arg string) ([]byte, error) {
 		out = append(out, pemEncode("PRIVATE KEY", k.pkcs8(p))...)
 	}
 	if has(p.Parts, "csr") {
-		csr, err := buildCSR(derName(e.Subject, p.Str), k)
+		csrSubj := derName(e.Subject, p.Str)
+		if p.Odd == "csr-empty-subject" {
+			csrSubj = derSeq()
+		}
+		csr, err := buildCSR(csrSubj, k)
 		if err != nil {
 			return nil, err
 		}
 		out = append(out, pemEncode("CERTIFICATE REQUEST", csr)...)
 	}
 	return out, nil
+}
+
+// oddKinds: certificates another tool could legitimately (or nearly legitimately) emit and a user
+// could import as a hash-less issuer: every one is well-formed DER that Go's asn1 decoder accepts
+// into gopki's certificate structure.
+var oddKinds = []string{"empty-subject", "empty-rdn-set", "multi-valued-rdn", "nonstring-attribute", "v1-no-extensions", "generalizedtime-early",
+	"year-9999", "ed25519-spki", "explicit-ec-parameters", "serial-zero", "serial-negative", "empty-public-key", "unused-bits-public-key",
+	"empty-extensions", "long-serial", "csr-empty-subject"}
+
+func buildOddCert(kind string, subj []byte, k *genKeyT, signer crypto.Signer, fam string, now time.Time) ([]byte, error) {
+	version := derTLV(0xa0, derSmallInt(2))
+	serial := derSmallInt(4711)
+	spki := k.spki()
+	nb, na := derTime(now.AddDate(-1, 0, 0)), derTime(now.AddDate(60, 0, 0))
+	var exts []byte
+	switch kind {
+	case "empty-subject":
+		subj = derSeq()
+	case "empty-rdn-set":
+		subj = derSeq(derSet())
+	case "multi-valued-rdn":
+		subj = derSeq(derSet(derSeq(derOIDBytes("2.5.4.3"), derTLV(0x0c, []byte("Multi"))), derSeq(derOIDBytes("2.5.4.5"), derTLV(0x13, []byte("42")))))
+	case "nonstring-attribute":
+		subj = derSeq(derSet(derSeq(derOIDBytes("2.5.4.3"), derSmallInt(7))), derSet(derSeq(derOIDBytes("1.2.3.4"), derSeq(derNull()))), derSet(derSeq(derOIDBytes("2.5.4.45"), derBitString([]byte{1, 2}))))
+	case "v1-no-extensions":
+		version = nil
+	case "generalizedtime-early":
+		nb = derTLV(0x18, []byte(now.AddDate(-1, 0, 0).UTC().Format("20060102150405Z")))
+		na = derTLV(0x18, []byte(now.AddDate(3, 0, 0).UTC().Format("20060102150405Z")))
+	case "year-9999":
+		na = derTLV(0x18, []byte("99991231235959Z"))
+	case "ed25519-spki":
+		spki = derSeq(derSeq(derOIDBytes("1.3.101.112")), derBitString(make([]byte, 32)))
+	case "explicit-ec-parameters":
+		if k.fam == "ec" {
+			params := derSeq(derSmallInt(1), derSeq(derOIDBytes("1.2.840.10045.1.1"), derSmallInt(23)), derSeq(derOctets([]byte{1}), derOctets([]byte{2})), derOctets([]byte{4, 1, 2}), derSmallInt(19), derSmallInt(1))
+			spki = derSeq(derSeq(derOIDBytes(oidECPub), params), derBitString(ecPointBytes(k.ec.Curve, k.ec.X, k.ec.Y)))
+		}
+	case "serial-zero":
+		serial = derSmallInt(0)
+	case "serial-negative":
+		serial = derSmallInt(-5)
+	case "long-serial":
+		serial = derTLV(0x02, append([]byte{0x7f}, make([]byte, 40)...))
+	case "empty-public-key":
+		spki = derSeq(derSeq(derOIDBytes(oidECPub), derOIDBytes(curveOIDByName["P-256"])), derTLV(0x03, []byte{0}))
+	case "unused-bits-public-key":
+		spki = derSeq(derSeq(derOIDBytes(oidRSA), derNull()), derTLV(0x03, []byte{3, 0xa8}))
+	case "empty-extensions":
+		exts = derSeq()
+	}
+	sigName := "ECDSAwithSHA256"
+	if fam == "rsa" {
+		sigName = "RSAwithSHA256"
+	}
+	oid := sigOIDByName[sigName]
+	alg := derSeq(derOIDBytes(oid))
+	if fam == "rsa" {
+		alg = derSeq(derOIDBytes(oid), derNull())
+	}
+	var parts [][]byte
+	if version != nil {
+		parts = append(parts, version)
+	}
+	parts = append(parts, serial, alg, subj, derSeq(nb, na), subj, spki)
+	if exts != nil {
+		parts = append(parts, derTLV(0xa3, exts))
+	}
+	tbs := derSeq(parts...)
+	_, sig, err := signWith(signer, fam, sigName, tbs)
+	if err != nil {
+		return nil, err
+	}
+	return derSeq(tbs, alg, derBitString(sig)), nil
 }
